@@ -104,7 +104,9 @@ var hsBudgets = []int64{30, 300, 3000, 200000, 200000, 200000}
 func (e hostsafe) genSource(r *core.PRNG) ([]byte, string) {
 	c := Corpus()
 	var src []byte
-	switch n := r.Intn(20); {
+	switch n := r.Intn(26); {
+	case n >= 20:
+		src = []byte(GenWild(r.Fork(), r.Chance(1, 4)))
 	case n < 12:
 		src = core.Pick(r, c.Snippets)
 	case n < 13 && len(c.Examples) > 0:
@@ -146,7 +148,7 @@ func (e hostsafe) genSource(r *core.PRNG) ([]byte, string) {
 }
 
 var hsLoadArgs = []string{"main", "main", "main", "main/main.go", "", ".", "../x", "ma*n", "main/", "a/b", "vendor", "x.go", "main/x.go", "[", "main/[a", "ext", "_"}
-var hsCallNames = []string{"main.main", "main.f", "main.init", "f", "math.Sqrt", "fmt.Println", "nope", "", "main.T", "builtin.__yield", "time.Sleep", "strings.Repeat", "main.x", "golang.org/x/exp/slices.SortFunc"}
+var hsCallNames = []string{"main.main", "main.f0", "main.f1", "main.f2", "main.hook", "main.hook", "main.f", "main.init", "f", "math.Sqrt", "fmt.Println", "nope", "", "main.T", "builtin.__yield", "time.Sleep", "strings.Repeat", "main.x", "golang.org/x/exp/slices.SortFunc"}
 var hsVias = []string{"", "", "", "", "native", "func", "sort", "yield", "init", "method"}
 
 func (e hostsafe) genTree(r *core.PRNG) []core.DiskFile {
@@ -169,6 +171,8 @@ func (e hostsafe) genTree(r *core.PRNG) []core.DiskFile {
 		for _, f := range w.EntFiles() {
 			files = append(files, core.DiskFile{Path: w.EntFilePath(f[0], f[1]), Data: []byte(w.EntFile(f[0], f[1], v))})
 		}
+	case n < 8:
+		files = append(files, core.DiskFile{Path: "main/main.go", Data: []byte(GenWild(r.Fork(), true))})
 	default:
 		nf := 1 + r.Intn(4)
 		for i := 0; i < nf; i++ {
